@@ -4,8 +4,8 @@ import ast
 
 from .. import bits as B_
 from .. import interval as I_
-from ..astutil import dotted, method_call
-from ..cfg import cfg_of, fact_key, norm, walk_own
+from ..astutil import aug_form, dotted, effective, method_call
+from ..cfg import canon_test, cfg_of, fact_key, norm, walk_own
 from ..consteval import Scope, fold_in
 from ..mutate import B, M
 
@@ -60,24 +60,24 @@ def check(ctx):
     ctx.inst('R2', f, 'exponent=bits14..10', B_.is_input_field(eb, 0, 5, 'h', 10) and all(b == 0 for b in eb[5:]), 'exponent extracted as %s' % B_.describe(eb, 8))
     ctx.inst('R2', f, 'fraction=bits9..0', B_.is_input_field(fb, 0, 10, 'h', 0) and all(b == 0 for b in fb[10:]), 'fraction extracted as %s' % B_.describe(fb, 12))
     aug = [s for s in assigns(f) if isinstance(s, ast.AugAssign)]
-    top = [s for s in f.node.body if isinstance(s, ast.AugAssign)]
-    rebias = [s for s in top if norm(s.target) == 'e' and isinstance(s.op, ast.Add)]
-    shift = [s for s in top if norm(s.target) == 'f' and isinstance(s.op, ast.LShift)]
-    ctx.inst('R2', f, 'rebias=127-15', len(rebias) == 1 and fold_in(f, rebias[0].value) == 112, 'exponent re-bias must be 127 - 15 = 112')
-    ctx.inst('R2', f, 'fraction-shift=13', len(shift) == 1 and fold_in(f, shift[0].value) == 13, 'fraction shift must be 23 - 10 = 13')
+    top = [(s, aug_form(s)) for s in f.node.body if aug_form(s)]
+    rebias = [a[2] for s, a in top if a[0] == 'e' and a[1] is ast.Add]
+    shift = [a[2] for s, a in top if a[0] == 'f' and a[1] is ast.LShift]
+    ctx.inst('R2', f, 'rebias=127-15', len(rebias) == 1 and fold_in(f, rebias[0]) == 112, 'exponent re-bias must be 127 - 15 = 112')
+    ctx.inst('R2', f, 'fraction-shift=13', len(shift) == 1 and fold_in(f, shift[0]) == 13, 'fraction shift must be 23 - 10 = 13')
     res = [s for s in f.node.body if isinstance(s, ast.Assign) and norm(s.targets[0]) == 'result']
     ctx.need(len(res) == 1, 'fp16_to_float: result assembly not found')
     rb = B_.evaluate(res[0].value, sc, {'s': 's', 'e': 'e', 'f': 'f'}, {'s': 1, 'e': 8, 'f': 23})
     ctx.inst('R2', f, 'assembly', B_.is_input_field(rb, 31, 1, 's') and B_.is_input_field(rb, 23, 8, 'e') and B_.is_input_field(rb, 0, 23, 'f'),
              'float32 word must be s<<31 | e<<23 | f; bits %s' % B_.describe(rb, 32)[:80])
     loops = [w for w in walk_own(f.node) if isinstance(w, ast.While)]
-    okn = len(loops) == 1 and norm(loops[0].test) in ('not f & 1024', 'not (f & 1024)', 'f & 1024 == 0') and \
-        sorted(norm(s) for s in loops[0].body) == ['e -= 1', 'f <<= 1']
+    okn = len(loops) == 1 and canon_test(loops[0].test) in ('not f & 1024', fact_key('f & 1024 == 0')[0]) and \
+        sorted((aug_form(s) or ('?',))[0:1] + ((aug_form(s)[1].__name__, norm(aug_form(s)[2])) if aug_form(s) else ()) for s in effective(loops[0].body)) == [('e', 'Sub', '1'), ('f', 'LShift', '1')]
     ctx.inst('R2', f, 'subnormal-normalisation', okn, 'subnormals: shift the fraction left (exponent down) until the implicit bit 0x400 appears')
     g = cfg_of(f)
-    post = [n for n in g.nodes if n.kind == 'stmt' and isinstance(n.ast, ast.AugAssign) and fact_key('e == 0', True) in g.fact_keys_at(n) and n.ast not in (loops[0].body if loops else [])]
-    pt = sorted(norm(n.ast) for n in post)
-    ctx.inst('R2', f, 'subnormal-fixup', pt == ['e += 1', 'f &= ~1024'], 'after normalisation: exponent + 1 and the implicit bit removed; found %s' % pt)
+    post = [n for n in g.nodes if n.kind == 'stmt' and aug_form(n.ast) and fact_key('e == 0', True) in g.fact_keys_at(n) and n.ast not in (loops[0].body if loops else [])]
+    pt = sorted((aug_form(n.ast)[0], aug_form(n.ast)[1].__name__, norm(aug_form(n.ast)[2])) for n in post)
+    ctx.inst('R2', f, 'subnormal-fixup', pt == [('e', 'Add', '1'), ('f', 'BitAnd', '~1024')], 'after normalisation: exponent + 1 and the implicit bit removed; found %s' % pt)
     infs = [r for r in rets if r.value is not None and any(fact_key('e == 31', True) in g.fact_keys_at(n) for n in g.nodes_of(r))]
     oki = len(infs) == 2
     for r in infs:
@@ -229,8 +229,8 @@ def quaternion_rules(ctx, rule='R3'):
     wb = B_.evaluate(wa[0].value, Scope.of(cq), {'comp': 'comp', 'negbit': 'neg', 'mag': 'mag'}, {'comp': 32, 'neg': 1, 'mag': 9})
     ctx.inst(rule, cq, 'writer-group', B_.is_input_field(wb, 0, 9, 'mag') and B_.is_input_field(wb, 9, 1, 'neg') and B_.is_input_field(wb, 10, 22, 'comp'),
              'each group is comp<<10 | sign<<9 | magnitude; bits %s' % B_.describe(wb, 14))
-    skipw = [i for i in walk_own(wl[0]) if isinstance(i, ast.If) and norm(i.test) == '%s != i_largest' % norm(wl[0].target)]
-    skipr = [i for i in walk_own(rl[0]) if isinstance(i, ast.If) and norm(i.test) == '%s != i_largest' % norm(rl[0].target)]
+    skipw = [i for i in walk_own(wl[0]) if isinstance(i, ast.If) and canon_test(i.test) == canon_test(ast.parse('%s != i_largest' % norm(wl[0].target), mode='eval').body)]
+    skipr = [i for i in walk_own(rl[0]) if isinstance(i, ast.If) and canon_test(i.test) == canon_test(ast.parse('%s != i_largest' % norm(rl[0].target), mode='eval').body)]
     ctx.inst(rule, cq, 'largest-skipped', len(skipw) == 1 and len(skipr) == 1, 'both sides skip the largest component')
     init = [s for s in cq.node.body if isinstance(s, ast.Assign) and norm(s.targets[0]) == 'comp']
     ctx.inst(rule, cq, 'index-first', len(init) == 1 and norm(init[0].value) == 'i_largest', 'the word starts with the index of the largest component')
@@ -256,7 +256,7 @@ def quaternion_rules(ctx, rule='R3'):
     rq = [s for s in walk_own(rl[0]) if isinstance(s, ast.Assign) and norm(s.targets[0]) == 'q[%s]' % norm(rl[0].target)]
     ctx.inst(rule, dq, 'reader-scale', any(norm(s.value) in ('mag / mask / np.sqrt(2)', 'mag / mask / math.sqrt(2)') for s in rq), 'component = magnitude / 511 / sqrt2')
     ns = [s for s in walk_own(wl[0]) if isinstance(s, ast.Assign) and norm(s.targets[0]) == 'negbit']
-    ctx.inst(rule, cq, 'sign-relative-to-largest', len(ns) == 1 and norm(ns[0].value) == 'int((quat_n[%s] < 0) ^ negate)' % norm(wl[0].target), 'sign bit is relative to the sign of the largest component')
+    ctx.inst(rule, cq, 'sign-relative-to-largest', len(ns) == 1 and norm(ns[0].value) in ('int((quat_n[%s] < 0) ^ negate)' % norm(wl[0].target), 'int((0 > quat_n[%s]) ^ negate)' % norm(wl[0].target)), 'sign bit is relative to the sign of the largest component')
 
 
 
